@@ -697,6 +697,77 @@ pub fn suite_text_raw(ctx: &mut Ctx, suite: &str, n: u64) {
     }
 }
 
+/// Exhaustive small scope for the row machinery: every header of 1..=3 columns with every assignment of
+/// input / output to the columns, every order of the signal list, and every row over {1, X, Z, C} — the row
+/// twice in a row (so that the previous-row state matters) — run against a scripted driver and compared
+/// with the model item by item and call by call, plus the property's trace oracles.
+pub fn suite_rows_enum(ctx: &mut Ctx, suite: &str) {
+    if ctx.only_suite.as_deref().map(|s| s != suite).unwrap_or(false) {
+        return;
+    }
+    let atoms = ["1", "X", "Z", "C"];
+    let perms: [&[usize]; 6] = [&[0, 1, 2], &[0, 2, 1], &[1, 0, 2], &[1, 2, 0], &[2, 0, 1], &[2, 1, 0]];
+    let mut idx: u64 = 0;
+    let mut total: u64 = 0;
+    for k in 1..=3usize {
+        for kinds in 0..(1u32 << k) {
+            for perm in perms.iter() {
+                // permutations of the first k positions only
+                if perm.iter().take(k).any(|&p| p >= k) || perm.iter().skip(k).zip(k..3).any(|(&p, i)| p != i) {
+                    continue;
+                }
+                for code in 0..(4u32.pow(k as u32)) {
+                    idx += 1;
+                    let cs = case_seed(0, suite, idx);
+                    if let Some(c) = ctx.only_case {
+                        if c != cs {
+                            continue;
+                        }
+                    } else if idx % ctx.parts != ctx.part {
+                        continue;
+                    }
+                    if ctx.too_many() {
+                        return;
+                    }
+                    let mut text = String::new();
+                    for &i in perm.iter().take(k) {
+                        let dir = if kinds >> i & 1 == 1 { "out" } else { "in" };
+                        text.push_str(&format!("sig S{i} 2 {dir} {}\n", if dir == "in" { "0" } else { "-" }));
+                    }
+                    text.push_str("src-begin\n");
+                    let header: Vec<String> = (0..k).map(|i| format!("S{i}")).collect();
+                    text.push_str(&header.join(" "));
+                    text.push('\n');
+                    let mut row = vec![];
+                    let mut c = code;
+                    for _ in 0..k {
+                        row.push(atoms[(c % 4) as usize]);
+                        c /= 4;
+                    }
+                    for _ in 0..2 {
+                        text.push_str(&row.join(" "));
+                        text.push('\n');
+                    }
+                    text.push_str("src-end\n");
+                    let cc = match crate::corpus::parse_case(&format!("rows-enum-{idx}"), &text) {
+                        Ok(c) => c,
+                        Err(e) => {
+                            ctx.report.notes.push(format!("rows-enum: {e}"));
+                            continue;
+                        }
+                    };
+                    total += 1;
+                    judge_run_case(ctx, suite, cs, &cc.case, &cc.src, None);
+                }
+            }
+        }
+    }
+    ctx.report.exhaustive.push(format!(
+        "exhaustive: every header of 1..=3 columns x every input/output assignment x every signal-list order x every row over {{1,X,Z,C}} (twice in a row); this process: {total} cases, part {} of {}",
+        ctx.part, ctx.parts
+    ));
+}
+
 /// the token alphabet of the exhaustive enumeration: one representative per syntactic role
 const ENUM_ATOMS: &[&str] = &[
     "1", "0x1F", "a", "(", ")", ",", ";", "+", "-", "=", "<", "let", "loop", "end", "while", "repeat", "bits", "declare",
@@ -1533,7 +1604,11 @@ pub fn run_property(ctx: &mut Ctx) {
     let prop = ctx.prop.clone();
     crate::corpus::run_corpus(ctx);
     match prop.as_str() {
-        "C01" | "C02" | "C03" | "C04" | "C05" | "C06" | "C11" | "C13" | "C14" | "C18" => suite_run(ctx, "run", k(6000, 60000)),
+        "C02" | "C05" | "C06" => {
+            suite_rows_enum(ctx, "rows-enum");
+            suite_run(ctx, "run", k(6000, 60000));
+        }
+        "C01" | "C03" | "C04" | "C11" | "C13" | "C14" | "C18" => suite_run(ctx, "run", k(6000, 60000)),
         "C17" => suite_run(ctx, "run", k(6000, 60000)),
         "C16" => crate::dig::suite_dig(ctx, "dig", k(2500, 60000)),
         "C15" => {
